@@ -37,7 +37,15 @@ Proof.
     rewrite ?andb_true_iff, ?Nat.eqb_eq, msg_eqb_spec.
   - split; [intros [? ?]|intros E; inversion E]; subst; auto.
   - split; [intros [[? ?] ?]|intros E; inversion E]; subst; auto.
-  - split; [intros [[? ?] ?]|intros E; inversion E]; subst; auto.
+  - split; [intros [[[? ?] ?] ?]|intros E; inversion E]; subst; auto.
+Qed.
+
+Lemma up_b_spec u v l ups : up_b u v l ups = true <-> In (LK u v l) ups.
+Proof.
+  unfold up_b, lk_is. rewrite existsb_exists. split.
+  - intros [[a b c] [Hx E]]. cbn [k_u k_v k_l] in E. rewrite !andb_true_iff, !Nat.eqb_eq in E.
+    destruct E as [[-> ->] ->]. exact Hx.
+  - intros H. exists (LK u v l). split; [exact H|]. cbn [k_u k_v k_l]. rewrite !Nat.eqb_refl. reflexivity.
 Qed.
 
 Lemma count_app o a b : count_obs o (a ++ b) = (count_obs o a + count_obs o b)%nat.
@@ -59,16 +67,16 @@ Proof. rewrite <- count_pos_in. lia. Qed.
 
 (* ---------- queue extraction ---------- *)
 
-Lemma take_pkt_spec u v l p r :
-  take_pkt u v l = Some (p, r) ->
-  p_src p = u /\ p_dst p = v /\ (forall x, In x l <-> x = p \/ In x r).
+Lemma take_pkt_spec u v lid l p r :
+  take_pkt u v lid l = Some (p, r) ->
+  p_src p = u /\ p_dst p = v /\ p_lid p = lid /\ (forall x, In x l <-> x = p \/ In x r).
 Proof.
   revert p r; induction l as [|y l IH]; intros p r; cbn [take_pkt]; [discriminate|].
-  destruct (Nat.eqb (p_src y) u && Nat.eqb (p_dst y) v) eqn:E.
-  - intros H; inversion H; subst. apply andb_true_iff in E as [E1 E2].
-    apply Nat.eqb_eq in E1, E2. repeat split; auto; cbn [In]; intuition congruence.
-  - destruct (take_pkt u v l) as [[q r']|] eqn:T; [|discriminate].
-    intros H; inversion H; subst. destruct (IH _ _ eq_refl) as [H1 [H2 H3]].
+  destruct (Nat.eqb (p_src y) u && Nat.eqb (p_dst y) v && Nat.eqb (p_lid y) lid) eqn:E.
+  - intros H; inversion H; subst. apply andb_true_iff in E as [E E3]. apply andb_true_iff in E as [E1 E2].
+    apply Nat.eqb_eq in E1, E2, E3. repeat split; auto; cbn [In]; intuition congruence.
+  - destruct (take_pkt u v lid l) as [[q r']|] eqn:T; [|discriminate].
+    intros H; inversion H; subst. destruct (IH _ _ eq_refl) as [H1 [H2 [H2' H3]]].
     repeat split; auto; cbn [In]; intros Hx.
     + destruct Hx as [->|Hx]; [right; left; reflexivity|]. apply H3 in Hx as [->|Hx]; auto.
     + destruct Hx as [->|[->|Hx]]; [right; apply H3; auto|auto|right; apply H3; auto].
@@ -88,15 +96,16 @@ Proof.
     + destruct Hx as [->|[->|Hx]]; [right; apply H3; auto|auto|right; apply H3; auto].
 Qed.
 
-Lemma targets_spec pcl n prev m v :
-  In v (targets pcl n prev m) <-> In (n, v, m_ch m) pcl /\ v <> m_origin m /\ v <> prev.
+Lemma targets_spec pcl ups n prev m v l :
+  In (v, l) (targets pcl ups n prev m) <->
+  In (PC n v l (m_ch m)) pcl /\ v <> m_origin m /\ v <> prev /\ In (LK n v l) ups.
 Proof.
   unfold targets. rewrite in_map_iff. split.
-  - intros [[[a b] c] [E H]]. cbn [fst snd] in E. subst b. apply filter_In in H as [H1 H2].
-    cbn [fst snd] in H2. rewrite !andb_true_iff, !negb_true_iff, !Nat.eqb_eq, !Nat.eqb_neq in H2.
-    destruct H2 as [[[-> ->] H3] H4]. auto.
-  - intros [H1 [H2 H3]]. exists (n, v, m_ch m). split; [reflexivity|]. apply filter_In. split; [exact H1|].
-    cbn [fst snd]. rewrite !andb_true_iff, !negb_true_iff, !Nat.eqb_eq, !Nat.eqb_neq. auto.
+  - intros [[a b c d] [E H]]. cbn [c_v c_l] in E. inversion E; subst. apply filter_In in H as [H1 H2].
+    cbn [c_u c_v c_l c_ch] in H2. rewrite !andb_true_iff, !negb_true_iff, !Nat.eqb_eq, !Nat.eqb_neq, up_b_spec in H2.
+    destruct H2 as [[[[-> ->] H3] H4] H5]. auto.
+  - intros [H1 [H2 [H3 H4]]]. exists (PC n v l (m_ch m)). split; [reflexivity|]. apply filter_In. split; [exact H1|].
+    cbn [c_u c_v c_l c_ch]. rewrite !andb_true_iff, !negb_true_iff, !Nat.eqb_eq, !Nat.eqb_neq, up_b_spec. auto.
 Qed.
 
 (* ---------- handleValidMessage ---------- *)
@@ -105,7 +114,7 @@ Lemma handle_valid_cases s n from m :
   (In (n, m) (seen s) /\ handle_valid s n from m = (s, [])) \/
   (~ In (n, m) (seen s) /\
    handle_valid s n from m =
-     (Net ((n, m) :: seen s) (flight s) (pubq s ++ [Pend n from m]) (pc s) (chans s),
+     (Net ((n, m) :: seen s) (flight s) (pubq s ++ [Pend n from m]) (pc s) (chans s) (up s),
       Accepted n from m :: (if chan_b n (m_ch m) (chans s) then [Handed n m] else []))).
 Proof.
   unfold handle_valid. destruct (seen_b n m (seen s)) eqn:E.
@@ -127,44 +136,51 @@ Qed.
 Section Once.
   Variables (n : nat) (m : msg).
 
-  (* facts about one step *)
-  Lemma step_once s a s1 os :
-    nstep s a = (s1, os) ->
+  Definition once_facts (s s1 : net) (os : list nobs) : Prop :=
     (forall x, In x (seen s) -> In x (seen s1)) /\
     (In (n, m) (seen s) -> count_obs (Handed n m) os = 0%nat) /\
     (count_obs (Handed n m) os <= 1)%nat /\
     (count_obs (Handed n m) os = 1%nat -> In (n, m) (seen s1)).
+
+  Lemma once_silent s s1 : seen s1 = seen s -> once_facts s s1 [].
+  Proof. intros E. unfold once_facts. rewrite E. cbn. repeat split; auto; lia. Qed.
+
+  Lemma once_handle_valid s n' from m' s1 os :
+    handle_valid s n' from m' = (s1, os) -> once_facts s s1 os.
   Proof.
-    assert (HV : forall s n' from m' s1 os, handle_valid s n' from m' = (s1, os) ->
-      (forall x, In x (seen s) -> In x (seen s1)) /\
-      (In (n, m) (seen s) -> count_obs (Handed n m) os = 0%nat) /\
-      (count_obs (Handed n m) os <= 1)%nat /\
-      (count_obs (Handed n m) os = 1%nat -> In (n, m) (seen s1))).
-    { clear. intros s n' from m' s1 os H.
-      destruct (handle_valid_cases s n' from m') as [[Hs E]|[Hs E]]; rewrite E in H; inversion H; subst; clear H.
-      - cbn. repeat split; auto; lia.
-      - cbn [seen]. split; [intros x Hx; right; exact Hx|].
-        destruct (chan_b n' (m_ch m') (chans s)); unfold count_obs; cbn [count_occ_b nobs_eqb].
-        + destruct (Nat.eqb n n' && msg_eqb m m') eqn:E1.
-          * apply andb_true_iff in E1 as [E1 E2]. apply Nat.eqb_eq in E1. apply msg_eqb_spec in E2. subst.
-            repeat split; try lia; [contradiction|intros _; left; reflexivity].
-          * repeat split; try lia.
-        + repeat split; try lia. }
-    destruct a as [m0|u v|k|u v ch b|k ch b]; cbn [nstep].
-    - apply HV.
-    - destruct (take_pkt u v (flight s)) as [[p rest]|] eqn:T.
-      + destruct (chan_b v (m_ch (p_msg p)) (chans s)).
-        * intros H. apply HV in H. cbn [seen] in H. exact H.
-        * intros H; inversion H; subst. cbn. repeat split; auto; lia.
-      + intros H; inversion H; subst. cbn. repeat split; auto; lia.
+    intros H. unfold once_facts.
+    destruct (handle_valid_cases s n' from m') as [[Hs E]|[Hs E]]; rewrite E in H; inversion H; subst; clear H.
+    - cbn. repeat split; auto; lia.
+    - cbn [seen]. split; [intros x Hx; right; exact Hx|].
+      destruct (chan_b n' (m_ch m') (chans s)); unfold count_obs; cbn [count_occ_b nobs_eqb].
+      + destruct (Nat.eqb n n' && msg_eqb m m') eqn:E1.
+        * apply andb_true_iff in E1 as [E1 E2]. apply Nat.eqb_eq in E1. apply msg_eqb_spec in E2. subst.
+          repeat split; try lia; [contradiction|intros _; left; reflexivity].
+        * repeat split; try lia.
+      + repeat split; try lia.
+  Qed.
+
+  (* facts about one step *)
+  Lemma step_once s a s1 os : nstep s a = (s1, os) -> once_facts s s1 os.
+  Proof.
+    destruct a as [m0|u v l|k|u v l ch b|k ch b|u v l|u v l]; cbn [nstep].
+    - apply once_handle_valid.
+    - destruct (take_pkt u v l (flight s)) as [[p rest]|] eqn:T.
+      + destruct (up_b v u l (up s) && chan_b v (m_ch (p_msg p)) (chans s)).
+        * intros H. apply once_handle_valid in H. exact H.
+        * intros H; inversion H; subst. apply once_silent. reflexivity.
+      + intros H; inversion H; subst. apply once_silent. reflexivity.
     - destruct (take_pend k (pubq s)) as [[q rest]|] eqn:T.
-      + intros H; inversion H; subst. cbn [seen].
-        assert (Z0 : count_obs (Handed n m) (map (fun v => Sent k v (q_msg q)) (targets (pc s) k (q_prev q) (q_msg q))) = 0%nat).
+      + intros H; inversion H; subst. unfold once_facts. cbn [seen].
+        assert (Z0 : count_obs (Handed n m)
+                  (map (fun t => Sent k (fst t) (snd t) (q_msg q)) (targets (pc s) (up s) k (q_prev q) (q_msg q))) = 0%nat).
         { apply count_zero_notin. intros Hin. apply in_map_iff in Hin as [x [E _]]. discriminate. }
         rewrite Z0. repeat split; auto; lia.
-      + intros H; inversion H; subst. cbn. repeat split; auto; lia.
-    - destruct b; [destruct (pc_b u v ch (pc s))|]; intros H; inversion H; subst; cbn; repeat split; auto; lia.
-    - destruct b; [destruct (chan_b k ch (chans s))|]; intros H; inversion H; subst; cbn; repeat split; auto; lia.
+      + intros H; inversion H; subst. apply once_silent. reflexivity.
+    - destruct b; [destruct (pc_b u v l ch (pc s))|]; intros H; inversion H; subst; apply once_silent; reflexivity.
+    - destruct b; [destruct (chan_b k ch (chans s))|]; intros H; inversion H; subst; apply once_silent; reflexivity.
+    - destruct (up_b u v l (up s)); intros H; inversion H; subst; apply once_silent; reflexivity.
+    - intros H; inversion H; subst; apply once_silent; reflexivity.
   Qed.
 
   Lemma once_aux l : forall s,
@@ -184,7 +200,8 @@ Section Once.
 End Once.
 
 (* each node's subscriptions are handed a given message at most once, whatever
-   the initial state, the topology changes and the schedule *)
+   the initial state, the topology changes (links coming up and going down,
+   parallel links, subscription changes) and the schedule *)
 Theorem handed_at_most_once s l n m : (count_obs (Handed n m) (snd (nrun s l)) <= 1)%nat.
 Proof. apply once_aux. Qed.
 
@@ -194,26 +211,29 @@ Definition echo_inv (s : net) (os : list nobs) : Prop :=
   (forall q, In q (pubq s) -> In (Accepted (q_node q) (q_prev q) (q_msg q)) os) /\
   (forall u w m, In (Accepted u w m) os -> In (u, m) (seen s)) /\
   (forall u w w' m, In (Accepted u w m) os -> In (Accepted u w' m) os -> w = w') /\
-  (forall u v m, In (Sent u v m) os ->
+  (forall u v l m, In (Sent u v l m) os ->
      v <> m_origin m /\ exists w, In (Accepted u w m) os /\ v <> w).
+
+Lemma echo_silent s os s1 : pubq s1 = pubq s -> seen s1 = seen s -> echo_inv s os -> echo_inv s1 (os ++ []).
+Proof. intros Ep Es H. rewrite app_nil_r. unfold echo_inv in *. rewrite Ep, Es. exact H. Qed.
 
 Lemma echo_step s os a s1 o1 :
   echo_inv s os -> nstep s a = (s1, o1) -> echo_inv s1 (os ++ o1).
 Proof.
-  intros [I1 [I2 [I3 I4]]].
+  intros I. pose proof I as [I1 [I2 [I3 I4]]].
   assert (HV : forall s' n from m s1 o1,
     pubq s' = pubq s -> seen s' = seen s ->
     handle_valid s' n from m = (s1, o1) -> echo_inv s1 (os ++ o1)).
   { intros s' n from m s2 o2 Ep Es H.
     destruct (handle_valid_cases s' n from m) as [[Hs E]|[Hs E]]; rewrite E in H; inversion H; subst; clear H E.
-    - rewrite app_nil_r. unfold echo_inv. rewrite Ep, Es. auto.
+    - apply (echo_silent s); auto.
     - rewrite Es in Hs. unfold echo_inv. cbn [pubq seen]. rewrite Ep, Es.
       assert (NoAcc : forall w, ~ In (Accepted n w m) os) by (intros w Hw; apply Hs; eapply I2; eauto).
       assert (InNew : forall o, In o (os ++ Accepted n from m :: (if chan_b n (m_ch m) (chans s') then [Handed n m] else [])) ->
                  In o os \/ o = Accepted n from m \/ o = Handed n m).
       { intros o Ho. apply in_app_or in Ho as [Ho|[Ho|Ho]]; auto.
         destruct (chan_b n (m_ch m) (chans s')); cbn in Ho; intuition. }
-      repeat split.
+      split; [|split; [|split]].
       + intros q Hq. apply in_app_or in Hq as [Hq|[<-|[]]]; apply in_or_app; [left; auto|right; left; reflexivity].
       + intros u w m0 H. apply InNew in H as [H|[H|H]]; [right; eapply I2; eauto|inversion H; subst; left; reflexivity|discriminate].
       + intros u w w' m0 H H'. apply InNew in H as [H|[H|H]]; apply InNew in H' as [H'|[H'|H']]; try discriminate.
@@ -221,37 +241,37 @@ Proof.
         * inversion H'; subst. destruct (NoAcc _ H).
         * inversion H; subst. destruct (NoAcc _ H').
         * inversion H; inversion H'; subst. reflexivity.
-      + apply InNew in H as [H|[H|H]]; try discriminate. apply I4 in H. tauto.
-      + apply InNew in H as [H|[H|H]]; try discriminate. apply I4 in H as [_ [w [Hw Hn]]].
-        exists w. split; [apply in_or_app; left; exact Hw|exact Hn]. }
-  destruct a as [m0|u v|k|u v ch b|k ch b]; cbn [nstep].
+      + intros u v l m0 H. apply InNew in H as [H|[H|H]]; try discriminate. apply I4 in H as [H1 [w [Hw Hn]]].
+        split; [exact H1|]. exists w. split; [apply in_or_app; left; exact Hw|exact Hn]. }
+  destruct a as [m0|u v l|k|u v l ch b|k ch b|u v l|u v l]; cbn [nstep].
   - apply HV; reflexivity.
-  - destruct (take_pkt u v (flight s)) as [[p rest]|] eqn:T.
-    + destruct (chan_b v (m_ch (p_msg p)) (chans s)).
+  - destruct (take_pkt u v l (flight s)) as [[p rest]|] eqn:T.
+    + destruct (up_b v u l (up s) && chan_b v (m_ch (p_msg p)) (chans s)).
       * apply HV; reflexivity.
-      * intros H; inversion H; subst. rewrite app_nil_r. unfold echo_inv. cbn [pubq seen]. auto.
-    + intros H; inversion H; subst. rewrite app_nil_r. unfold echo_inv. auto.
+      * intros H; inversion H; subst. exact (echo_silent _ _ _ eq_refl eq_refl I).
+    + intros H; inversion H; subst. exact (echo_silent _ _ _ eq_refl eq_refl I).
   - destruct (take_pend k (pubq s)) as [[q rest]|] eqn:T.
     + intros H; inversion H; subst. clear H. apply take_pend_spec in T as [Tn Tin].
       unfold echo_inv. cbn [pubq seen].
-      assert (InNew : forall o, In o (os ++ map (fun v => Sent k v (q_msg q)) (targets (pc s) k (q_prev q) (q_msg q))) ->
-                 In o os \/ exists v, o = Sent k v (q_msg q) /\ In v (targets (pc s) k (q_prev q) (q_msg q))).
-      { intros o Ho. apply in_app_or in Ho as [Ho|Ho]; auto. apply in_map_iff in Ho as [v [<- Hv]]. right. eauto. }
-      repeat split.
+      set (ts := targets (pc s) (up s) k (q_prev q) (q_msg q)).
+      assert (InNew : forall o, In o (os ++ map (fun t => Sent k (fst t) (snd t) (q_msg q)) ts) ->
+                 In o os \/ exists v l, o = Sent k v l (q_msg q) /\ In (v, l) ts).
+      { intros o Ho. apply in_app_or in Ho as [Ho|Ho]; auto. apply in_map_iff in Ho as [[v l] [<- Hv]]. right. eauto. }
+      split; [|split; [|split]].
       * intros x Hx. apply in_or_app. left. apply I1. apply Tin. auto.
-      * intros u w m H. apply InNew in H as [H|[v [H _]]]; [eapply I2; eauto|discriminate].
-      * intros u w w' m H H'. apply InNew in H as [H|[v [H _]]]; [|discriminate].
-        apply InNew in H' as [H'|[v [H' _]]]; [|discriminate]. eapply I3; eauto.
-      * apply InNew in H as [H|[x [H Hx]]]; [apply I4 in H; tauto|].
-        inversion H; subst. apply targets_spec in Hx. tauto.
-      * apply InNew in H as [H|[x [H Hx]]].
-        { apply I4 in H as [_ [w [Hw Hn]]]. exists w. split; [apply in_or_app; left; exact Hw|exact Hn]. }
-        inversion H; subst. apply targets_spec in Hx as [_ [_ Hx]].
-        exists (q_prev q). split; [|exact Hx]. apply in_or_app. left.
-        specialize (I1 q (proj2 (Tin q) (or_introl eq_refl))). exact I1.
-    + intros H; inversion H; subst. rewrite app_nil_r. unfold echo_inv. auto.
-  - destruct b; [destruct (pc_b u v ch (pc s))|]; intros H; inversion H; subst; rewrite app_nil_r; unfold echo_inv; cbn [pubq seen]; auto.
-  - destruct b; [destruct (chan_b k ch (chans s))|]; intros H; inversion H; subst; rewrite app_nil_r; unfold echo_inv; cbn [pubq seen]; auto.
+      * intros u w m H. apply InNew in H as [H|[v [l [H _]]]]; [eapply I2; eauto|discriminate].
+      * intros u w w' m H H'. apply InNew in H as [H|[v [l [H _]]]]; [|discriminate].
+        apply InNew in H' as [H'|[v [l [H' _]]]]; [|discriminate]. eapply I3; eauto.
+      * intros u v l m H. apply InNew in H as [H|[x [l' [H Hx]]]].
+        { apply I4 in H as [H1 [w [Hw Hn]]]. split; [exact H1|]. exists w. split; [apply in_or_app; left; exact Hw|exact Hn]. }
+        inversion H; subst. apply targets_spec in Hx as [_ [Ho [Hp _]]].
+        split; [exact Ho|]. exists (q_prev q). split; [|exact Hp]. apply in_or_app. left.
+        exact (I1 q (proj2 (Tin q) (or_introl eq_refl))).
+    + intros H; inversion H; subst. exact (echo_silent _ _ _ eq_refl eq_refl I).
+  - destruct b; [destruct (pc_b u v l ch (pc s))|]; intros H; inversion H; subst; exact (echo_silent _ _ _ eq_refl eq_refl I).
+  - destruct b; [destruct (chan_b k ch (chans s))|]; intros H; inversion H; subst; exact (echo_silent _ _ _ eq_refl eq_refl I).
+  - destruct (up_b u v l (up s)); intros H; inversion H; subst; exact (echo_silent _ _ _ eq_refl eq_refl I).
+  - intros H; inversion H; subst; exact (echo_silent _ _ _ eq_refl eq_refl I).
 Qed.
 
 Lemma echo_run l : forall s os, echo_inv s os ->
@@ -264,10 +284,10 @@ Proof.
     rewrite app_assoc. exact IH.
 Qed.
 
-(* a node never writes a message to its origin nor to the peer it accepted it from *)
-Theorem no_echo s l u v m :
+(* a node never writes a message (on any of its links) to its origin nor to the peer it accepted it from *)
+Theorem no_echo s l u v lid m :
   pubq s = [] ->
-  In (Sent u v m) (snd (nrun s l)) ->
+  In (Sent u v lid m) (snd (nrun s l)) ->
   v <> m_origin m /\
   (exists w, In (Accepted u w m) (snd (nrun s l))) /\
   (forall w, In (Accepted u w m) (snd (nrun s l)) -> v <> w).
@@ -276,121 +296,104 @@ Proof.
   assert (I0 : echo_inv s []).
   { unfold echo_inv. rewrite Hp. cbn. repeat split; intros; contradiction. }
   apply (echo_run l) in I0. cbn [app] in I0. destruct I0 as [_ [_ [I3 I4]]].
-  destruct (I4 _ _ _ H) as [H1 [w [Hw Hn]]]. split; [exact H1|]. split; [eauto|].
+  destruct (I4 _ _ _ _ H) as [H1 [w [Hw Hn]]]. split; [exact H1|]. split; [eauto|].
   intros w' Hw'. rewrite (I3 _ _ _ _ Hw' Hw). exact Hn.
 Qed.
 
-(* ---------- every subscriber reachable through subscribers ---------- *)
+(* ---------- every subscriber reachable through subscribers over the links that are up ---------- *)
 
 Section Live.
-  Variable link : nat -> nat -> bool.
   Variable s0 : net.
-  Hypothesis Hann : announced link s0.
+  Variable m : msg.
+  Hypothesis Hann : announced s0.
 
   Definition live_inv (s : net) (os : list nobs) : Prop :=
-    (pc s = pc s0 /\ chans s = chans s0) /\
+    (pc s = pc s0 /\ chans s = chans s0 /\ up s = up s0) /\
     (forall p, In p (flight s) -> In (p_src p, p_msg p) (seen s)) /\
     (forall q, In q (pubq s) -> In (q_node q, q_msg q) (seen s) /\ In (q_prev q, q_msg q) (seen s)) /\
-    (forall n m, In (n, m) (seen s) -> In (m_origin m, m) (seen s)) /\
-    (forall u v m, In (u, m) (seen s) -> In (u, v, m_ch m) (pc s) ->
-       In (v, m) (seen s) \/ In (Pkt u v m) (flight s) \/ exists prev, In (Pend u prev m) (pubq s)) /\
-    (forall n m, In (n, m) (seen s) -> chan_b n (m_ch m) (chans s) = true -> In (Handed n m) os).
+    (forall n, In (n, m) (seen s) -> In (m_origin m, m) (seen s)) /\
+    (forall u v l, In (u, m) (seen s) -> In (PC u v l (m_ch m)) (pc s) -> In (LK u v l) (up s) ->
+       In (v, m) (seen s) \/ In (Pkt u v l m) (flight s) \/ exists prev, In (Pend u prev m) (pubq s)) /\
+    (forall n, In (n, m) (seen s) -> chan_b n (m_ch m) (chans s) = true -> In (Handed n m) os).
 
-  Lemma live_handle_valid s os s' n from m s1 o1 :
+  Lemma live_handle_valid s os s' n from m' s1 o1 :
     live_inv s os ->
-    seen s' = seen s -> pubq s' = pubq s -> pc s' = pc s -> chans s' = chans s ->
+    seen s' = seen s -> pubq s' = pubq s -> pc s' = pc s -> chans s' = chans s -> up s' = up s ->
     (forall p, In p (flight s') -> In p (flight s)) ->
-    (* the pairs whose packet disappeared are the ones being handled now *)
-    (forall u v m0, In (Pkt u v m0) (flight s) -> In (Pkt u v m0) (flight s') \/ (v = n /\ m0 = m)) ->
-    In (from, m) (seen s) -> In (m_origin m, m) (seen s) \/ m_origin m = n ->
-    handle_valid s' n from m = (s1, o1) -> live_inv s1 (os ++ o1).
+    (forall u v l, In (Pkt u v l m) (flight s) -> In (Pkt u v l m) (flight s') \/ (v = n /\ m' = m)) ->
+    In (from, m') (seen s) \/ from = n -> (m' = m -> In (m_origin m, m) (seen s) \/ m_origin m = n) ->
+    handle_valid s' n from m' = (s1, o1) -> live_inv s1 (os ++ o1).
   Proof.
-    intros [[K0a K0b] [K1 [K2 [K3 [K4 K5]]]]] Es Ep Epc Ech Hfl Hgone Hfrom Horig H.
-    destruct (handle_valid_cases s' n from m) as [[Hs E]|[Hs E]]; rewrite E in H; inversion H; subst; clear H E.
-    - rewrite app_nil_r. unfold live_inv. rewrite Es, Ep, Epc, Ech. rewrite Es in Hs.
-      split; [split; assumption|].
+    intros [[K0a [K0b K0c]] [K1 [K2 [K3 [K4 K5]]]]] Es Ep Epc Ech Eup Hfl Hgone Hfrom Horig H.
+    destruct (handle_valid_cases s' n from m') as [[Hs E]|[Hs E]]; rewrite E in H; inversion H; subst; clear H E.
+    - rewrite app_nil_r. unfold live_inv. rewrite Es, Ep, Epc, Ech, Eup. rewrite Es in Hs.
+      split; [repeat split; assumption|].
       split; [intros p Hp; apply K1; auto|].
       split; [exact K2|].
       split; [exact K3|].
       split; [|exact K5].
-      intros u v m0 Hu Hpc. destruct (K4 _ _ _ Hu Hpc) as [H|[H|H]]; auto.
+      intros u v l Hu Hpc Hup. destruct (K4 _ _ _ Hu Hpc Hup) as [H|[H|H]]; auto.
       destruct (Hgone _ _ _ H) as [H'|[-> ->]]; auto.
-    - unfold live_inv. cbn [seen flight pubq pc chans]. rewrite Es, Ep, Epc, Ech. rewrite Es in Hs.
-      split; [split; assumption|].
+    - unfold live_inv. cbn [seen flight pubq pc chans up]. rewrite Es, Ep, Epc, Ech, Eup. rewrite Es in Hs.
+      split; [repeat split; assumption|].
       split; [intros p Hp; right; apply K1; auto|].
       split.
       { intros q Hq. apply in_app_or in Hq as [Hq|[<-|[]]].
         - destruct (K2 _ Hq). split; right; assumption.
-        - cbn [q_node q_prev q_msg]. split; [left; reflexivity|right; exact Hfrom]. }
+        - cbn [q_node q_prev q_msg]. split; [left; reflexivity|]. destruct Hfrom as [Hf| ->]; [right; exact Hf|left; reflexivity]. }
       split.
-      { intros n0 m0 [H|H].
-        - inversion H; subst. destruct Horig as [Ho|Ho]; [right; exact Ho|left; rewrite Ho; reflexivity].
+      { intros n0 [H|H].
+        - inversion H; subst. destruct (Horig eq_refl) as [Ho|Ho]; [right; exact Ho|left; rewrite Ho; reflexivity].
         - right. eapply K3; eauto. }
       split.
-      { intros u v m0 [Hu|Hu] Hpc.
+      { intros u v l [Hu|Hu] Hpc Hup.
         - inversion Hu; subst. right. right. exists from. apply in_or_app. right. left. reflexivity.
-        - destruct (K4 _ _ _ Hu Hpc) as [H|[H|[prev H]]].
+        - destruct (K4 _ _ _ Hu Hpc Hup) as [H|[H|[prev H]]].
           + left. right. exact H.
           + destruct (Hgone _ _ _ H) as [H'|[-> ->]]; [auto|left; left; reflexivity].
           + right. right. exists prev. apply in_or_app. left. exact H. }
-      intros n0 m0 [H|H] Hc.
+      intros n0 [H|H] Hc.
       + inversion H; subst. rewrite Hc. apply in_or_app. right. right. left. reflexivity.
-      + apply in_or_app. left. apply K5; auto.
+      + apply in_or_app. left. destruct (chan_b n (m_ch m') (chans s)); apply K5; auto.
   Qed.
 
   Lemma live_step s os a s1 o1 :
     traffic a = true -> live_inv s os -> nstep s a = (s1, o1) -> live_inv s1 (os ++ o1).
   Proof.
-    intros Ht I. pose proof I as [[K0a K0b] [K1 [K2 [K3 [K4 K5]]]]].
-    destruct Hann as [A1 A2].
-    destruct a as [m0|u v|k|u v ch b|k ch b]; try discriminate; cbn [nstep].
+    intros Ht I. pose proof I as [[K0a [K0b K0c]] [K1 [K2 [K3 [K4 K5]]]]].
+    destruct Hann as [A0 [A1 A2]].
+    destruct a as [m0|u v l|k|u v l ch b|k ch b|u v l|u v l]; try discriminate; cbn [nstep].
     - (* Publish *)
-      destruct (handle_valid_cases s (m_origin m0) (m_origin m0) m0) as [[Hs E]|[Hs E]]; rewrite E;
-        intros H; inversion H; subst; clear H E.
-      { rewrite app_nil_r. exact I. }
-      unfold live_inv. cbn [seen flight pubq pc chans].
-      split; [split; assumption|].
-      split; [intros p Hp; right; apply K1; auto|].
-      split.
-      { intros q Hq. apply in_app_or in Hq as [Hq|[<-|[]]].
-        - destruct (K2 _ Hq). split; right; assumption.
-        - cbn [q_node q_prev q_msg]. split; left; reflexivity. }
-      split.
-      { intros n0 m1 [H|H]; [inversion H; subst; left; reflexivity|right; eapply K3; eauto]. }
-      split.
-      { intros u v m1 [Hu|Hu] Hpc.
-        - inversion Hu; subst. right. right. exists (m_origin m1). apply in_or_app. right. left. reflexivity.
-        - destruct (K4 _ _ _ Hu Hpc) as [H|[H|[prev H]]].
-          + left. right. exact H.
-          + right. left. exact H.
-          + right. right. exists prev. apply in_or_app. left. exact H. }
-      intros n0 m1 [H|H] Hc.
-      + inversion H; subst. rewrite Hc. apply in_or_app. right. right. left. reflexivity.
-      + apply in_or_app. left. apply K5; auto.
+      intros H. apply (live_handle_valid s os s (m_origin m0) (m_origin m0) m0 s1 o1 I); auto.
+      intros ->. right. reflexivity.
     - (* Recv *)
-      destruct (take_pkt u v (flight s)) as [[p rest]|] eqn:T.
+      destruct (take_pkt u v l (flight s)) as [[p rest]|] eqn:T.
       2:{ intros H; inversion H; subst. rewrite app_nil_r. exact I. }
-      apply take_pkt_spec in T as [Tu [Tv Tin]].
+      apply take_pkt_spec in T as [Tu [Tv [Tl Tin]]].
       assert (Hp : In p (flight s)) by (apply Tin; auto).
       assert (Hsrc : In (u, p_msg p) (seen s)) by (rewrite <- Tu; apply K1; exact Hp).
-      assert (Hgone : forall u0 v0 m0, In (Pkt u0 v0 m0) (flight s) -> In (Pkt u0 v0 m0) rest \/ (v0 = v /\ m0 = p_msg p)).
-      { intros u0 v0 m0 H. apply Tin in H as [H|H]; auto. right. subst p. cbn in *. auto. }
-      destruct (chan_b v (m_ch (p_msg p)) (chans s)) eqn:Ec.
+      assert (Hgone : forall u0 v0 l0, In (Pkt u0 v0 l0 m) (flight s) ->
+                 In (Pkt u0 v0 l0 m) rest \/ (u0 = u /\ v0 = v /\ l0 = l /\ p_msg p = m)).
+      { intros u0 v0 l0 H. apply Tin in H as [H|H]; auto. right. subst p. cbn in *. auto. }
+      destruct (up_b v u l (up s) && chan_b v (m_ch (p_msg p)) (chans s)) eqn:Ec.
       + intros H.
-        apply (live_handle_valid s os (Net (seen s) rest (pubq s) (pc s) (chans s)) v u (p_msg p) s1 o1 I); auto.
+        apply (live_handle_valid s os (Net (seen s) rest (pubq s) (pc s) (chans s) (up s)) v u (p_msg p) s1 o1 I); auto.
         * cbn [flight]. intros x Hx. apply Tin. auto.
-        * left. eapply K3; eauto.
-      + (* not subscribed: impossible for an announced pair *)
+        * cbn [flight]. intros u0 v0 l0 Hin. destruct (Hgone _ _ _ Hin) as [H'|[_ [-> [_ E]]]]; auto.
+        * intros E. left. rewrite E in Hsrc. eapply K3; eauto.
+      + (* session of the reader gone, or no channel key: impossible for a packet of m on a stabilised link *)
         intros H; inversion H; subst. rewrite app_nil_r.
-        unfold live_inv. cbn [seen flight pubq pc chans].
-        split; [split; assumption|].
+        unfold live_inv. cbn [seen flight pubq pc chans up].
+        split; [repeat split; assumption|].
         split; [intros x Hx; apply K1; apply Tin; auto|].
         split; [exact K2|].
         split; [exact K3|].
         split; [|exact K5].
-        intros u0 v0 m0 Hu Hpc. destruct (K4 _ _ _ Hu Hpc) as [H1|[H1|H1]]; auto.
-        destruct (Hgone _ _ _ H1) as [H2|[-> ->]]; auto.
-        rewrite K0a in Hpc. apply A1 in Hpc. rewrite <- K0b in Hpc. congruence.
+        intros u0 v0 l0 Hu Hpc Hup. destruct (K4 _ _ _ Hu Hpc Hup) as [H1|[H1|H1]]; auto.
+        destruct (Hgone _ _ _ H1) as [H2|[-> [-> [-> Em]]]]; auto.
+        exfalso. rewrite K0c in Hup. pose proof (A0 _ _ _ Hup) as Hback. rewrite <- K0c in Hback.
+        rewrite K0a in Hpc. pose proof (A1 _ _ _ _ Hpc Hup) as Hch. rewrite <- K0b in Hch.
+        apply up_b_spec in Hback. rewrite Em, Hback, Hch in Ec. discriminate.
     - (* Exec *)
       destruct (take_pend k (pubq s)) as [[q rest]|] eqn:T.
       2:{ intros H; inversion H; subst. rewrite app_nil_r. exact I. }
@@ -398,23 +401,23 @@ Section Live.
       assert (Hq : In q (pubq s)) by (apply Tin; auto).
       destruct (K2 _ Hq) as [Hq1 Hq2]. rewrite Tn in Hq1.
       intros H; inversion H; subst; clear H.
-      unfold live_inv. cbn [seen flight pubq pc chans].
-      split; [split; assumption|].
+      unfold live_inv. cbn [seen flight pubq pc chans up].
+      split; [repeat split; assumption|].
       split.
       { intros p Hp. apply in_app_or in Hp as [Hp|Hp]; [apply K1; exact Hp|].
-        apply in_map_iff in Hp as [v [<- _]]. cbn. exact Hq1. }
+        apply in_map_iff in Hp as [t [<- _]]. cbn. exact Hq1. }
       split; [intros x Hx; apply K2; apply Tin; auto|].
       split; [exact K3|].
       split.
-      { intros u v m Hu Hpc. destruct (K4 _ _ _ Hu Hpc) as [H1|[H1|[prev H1]]]; auto.
+      { intros u v l Hu Hpc Hup. destruct (K4 _ _ _ Hu Hpc Hup) as [H1|[H1|[prev H1]]]; auto.
         - right. left. apply in_or_app. left. exact H1.
         - apply Tin in H1 as [H1|H1]; [|right; right; eauto].
           subst q. cbn [q_node q_prev q_msg] in *.
           destruct (Nat.eq_dec v (m_origin m)) as [->|Ho]; [left; eapply K3; eauto|].
           destruct (Nat.eq_dec v prev) as [->|Hpv]; [left; exact Hq2|].
-          right. left. apply in_or_app. right. apply in_map_iff. exists v. split; [reflexivity|].
+          right. left. apply in_or_app. right. apply in_map_iff. exists (v, l). split; [reflexivity|].
           apply targets_spec. auto. }
-      intros n m Hs Hc. apply in_or_app. left. apply K5; auto.
+      intros n Hs Hc. apply in_or_app. left. apply K5; auto.
   Qed.
 
   Lemma live_run l : forall s os,
@@ -437,42 +440,46 @@ Section Live.
     specialize (IH s1 x (F1 _ H)). destruct (nrun s1 l). exact IH.
   Qed.
 
-  Lemma publish_seen l : forall s m, In (Publish m) l -> In (m_origin m, m) (seen (fst (nrun s l))).
+  Lemma publish_seen l : forall s, In (Publish m) l -> In (m_origin m, m) (seen (fst (nrun s l))).
   Proof.
-    induction l as [|a l IH]; intros s m H; [destruct H|]. cbn [nrun].
+    induction l as [|a l IH]; intros s H; [destruct H|]. cbn [nrun].
     destruct (nstep s a) as [s1 o1] eqn:E1. destruct H as [->|H].
     - assert (In (m_origin m, m) (seen s1)).
       { cbn [nstep] in E1. destruct (handle_valid_cases s (m_origin m) (m_origin m) m) as [[Hs E]|[Hs E]];
           rewrite E in E1; inversion E1; subst; [exact Hs|left; reflexivity]. }
       pose proof (seen_mono l s1 _ H) as H2. destruct (nrun s1 l). exact H2.
-    - specialize (IH s1 m H). destruct (nrun s1 l). exact IH.
+    - specialize (IH s1 H). destruct (nrun s1 l). exact IH.
   Qed.
 
-  (* main liveness statement *)
-  Theorem all_reached l m v :
-    fresh s0 -> forallb traffic l = true ->
-    quiescent (fst (nrun s0 l)) ->
+  (* main liveness statement: s0 is any stabilised state (links may have come
+     and gone before, earlier messages may have been flooded) *)
+  Theorem all_reached l v :
+    stable s0 -> unseen m s0 -> forallb traffic l = true ->
+    stable (fst (nrun s0 l)) ->
     In (Publish m) l ->
-    reach link s0 (m_ch m) (m_origin m) v ->
+    reach s0 (m_ch m) (m_origin m) v ->
     chan_b v (m_ch m) (chans s0) = true ->
     count_obs (Handed v m) (snd (nrun s0 l)) = 1%nat.
   Proof.
-    intros [F1 [F2 F3]] Ht [Q1 Q2] Hpub Hreach Hc.
+    intros [F2 F3] F1 Ht [Q1 Q2] Hpub Hreach Hc.
     assert (I0 : live_inv s0 []).
-    { unfold live_inv. rewrite F1, F2, F3. cbn. repeat split; intros; contradiction. }
+    { unfold live_inv. rewrite F2, F3. cbn.
+      split; [auto|]. split; [intros; contradiction|]. split; [intros; contradiction|].
+      split; [intros n Hn; destruct (F1 n Hn)|]. split; [intros u w l0 Hn; destruct (F1 u Hn)|].
+      intros n Hn; destruct (F1 n Hn). }
     apply (live_run l) in I0; [|exact Ht]. cbn [app] in I0.
-    destruct I0 as [[K0a K0b] [K1 [K2 [K3 [K4 K5]]]]].
-    destruct Hann as [A1 A2].
+    destruct I0 as [[K0a [K0b K0c]] [K1 [K2 [K3 [K4 K5]]]]].
+    destruct Hann as [A0 [A1 A2]].
     assert (Hseen : In (v, m) (seen (fst (nrun s0 l)))).
-    { induction Hreach as [|u v Hr IHr Hl Hcv].
+    { induction Hreach as [|u v Hr IHr [lid Hl] Hcv].
       - apply publish_seen. exact Hpub.
       - assert (Hu : In (u, m) (seen (fst (nrun s0 l)))).
         { inversion Hr; subst; [apply publish_seen; exact Hpub|]. apply IHr. assumption. }
-        pose proof (A2 _ _ _ Hl Hcv) as Hpc. rewrite <- K0a in Hpc.
-        destruct (K4 _ _ _ Hu Hpc) as [H|[H|[prev H]]]; [exact H| |].
+        pose proof (A2 _ _ _ _ Hl Hcv) as Hpc. rewrite <- K0a in Hpc. rewrite <- K0c in Hl.
+        destruct (K4 _ _ _ Hu Hpc Hl) as [H|[H|[prev H]]]; [exact H| |].
         + rewrite Q1 in H. destruct H.
         + rewrite Q2 in H. destruct H. }
-    rewrite <- K0b in Hc. pose proof (K5 _ _ Hseen Hc) as Hin.
+    rewrite <- K0b in Hc. pose proof (K5 _ Hseen Hc) as Hin.
     apply count_pos_in in Hin. pose proof (handed_at_most_once s0 l v m). lia.
   Qed.
 End Live.
